@@ -2,6 +2,7 @@ package props
 
 import (
 	"fmt"
+	"math"
 
 	"verif/harness/internal/core"
 	"verif/harness/internal/seq"
@@ -26,7 +27,11 @@ func init() {
 			c14eng(seq.KeyDom[string]{Name: "string", Pool: []string{"", "a", "b", "ab", "c", "zz"}, Str: func(k string) string { return fmt.Sprintf("%q", k) }}, 50000, 800000),
 			c14eng(seq.KeyDom[int]{Name: "int", Pool: []int{-1, 0, 1, 2, 3, 1 << 40}, Str: func(k int) string { return fmt.Sprint(k) }}, 50000, 800000),
 			c14eng(seq.KeyDom[rune]{Name: "rune", Pool: []rune{'a', 'b', 0, 'é', 0x1F600}, Str: func(k rune) string { return fmt.Sprintf("%q", k) }}, 30000, 400000),
+			// float keys incl. NaN (never equal to itself: each SetValue adds an entry that no lookup finds);
+			// the reference model is a Go map, which has the same semantics
+			c14eng(seq.KeyDom[float64]{Name: "float64", Pool: []float64{0, 1.5, -2, math.NaN(), math.Inf(1)}, Str: func(k float64) string { return fmt.Sprint(k) }}, 20000, 300000),
 			c14eng(seq.KeyDom[any]{Name: "any", Pool: []any{1, "1", true, nil, 2.5, 'x', "a"}, Str: func(k any) string { return fmt.Sprintf("%#v", k) }}, 40000, 600000),
 		},
+		Repro: map[string]func() (bool, string){"c14.removeall-nan": seq.ReproMapRemoveAllNaN},
 	})
 }
